@@ -315,6 +315,18 @@ def run(ctx):
             if s.startswith("assert ") or s.startswith("raise ConversionNotFound") or "if start_factors or end_factors" in s:
                 guards[f"{label}:{first + i}:{s[:40]}"] = (first + i) in ctx.lines.get(label, ())
     ctx.extra["guard_lines_reached"] = guards
+    # the same questions asked by two threads at once (deterministic line scheduler, units of the scenario's own with exact
+    # ratios, the temperature scales, levels): what this property says about an answer holds for every thread's answer
+    if ctx.shard == 0:
+        from .. import concurrent_conv
+        _mon = locals().get("mon")
+        if _mon is not None:
+            _mon.paused = True
+        try:
+            concurrent_conv.section(ctx, env, trials=(120 if ctx.tier == "quick" else 1500), key="C07")
+        finally:
+            if _mon is not None:
+                _mon.paused = False
     ctx.require("evaluations", 100)
     if ctx.get("outcomes/default/ConversionNotFound") + ctx.get("outcomes/default/AssertionError") == 0:
         ctx.not_reached("no impossible conversion was generated")
